@@ -86,7 +86,7 @@ def isActive (activation exit epoch : Nat) : Bool := decide (activation ≤ epoc
 def isSlashableValidator (slashed : Bool) (activation withdrawable epoch : Nat) : Bool :=
   !slashed && decide (activation ≤ epoch ∧ epoch < withdrawable)
 
-def FAR : Nat := 2 ^ 64 - 1
+abbrev FAR : Nat := 2 ^ 64 - 1
 
 /-! ## `beacon_block` (phase0; unchanged by altair apart from the payload type)
 
